@@ -47,19 +47,6 @@ Theorem C03_no_panic : forall s buf n v path,
 Proof. exact set_method_no_panic. Qed.
 Print Assumptions C03_no_panic.
 
-(* The leaf conversion of the model against the conversion the text speaks of: they differ on one
-   class, kept as an open finding owned by C19 - without a buffer a number assigned to a string
-   element is APPENDED to the old content. *)
-Theorem C03_refuted_string_append : exists n v path s,
-  wfn n = true /\ sound_set n = true /\ root_ok n = true /\ wtb n v = true /\
-  exists o, set_demand n v path (aval_of s) = Some o /\ set_method n v path s false <> Ret o None /\
-            set_method n v path s true = Ret o None.
-Proof.
-  exists (root_node ("T", TStruct [("S", TScalar SString)])), (VStruct [VStr "old"]), ["S"], (SrcInt KInt32 42).
-  vm_compute. repeat split; try reflexivity. eexists. repeat split; try reflexivity. discriminate.
-Qed.
-Print Assumptions C03_refuted_string_append.
-
 (* Outside the sound fragment the (repaired) emitter still loses updates: below a non-scalar field
    of a struct that is held BY VALUE in a map the assignment goes to a copy of the entry that is
    never stored back.  (No generated unit of the stream has this shape.) *)
